@@ -42,6 +42,8 @@ BOUNDS = {
              'pairs: 53 parameter lists (4 with an AC parameter) squared (ext/function kinds) x {same, child, grandchild, exclusive} x 133 calls '
              '(text path for the same-layer families); kind mixing: 6 lists squared x 8 kind pairs x 4 layerings; '
              'types: all pairs of 1-parameter lists over {Any, A, B, C, AC=(A, C)} x nullable x 4 layerings, both paths; '
+             'Super: override foo(x: Any|A, base: Super(method=None|True|False)) of each kind calling base(x) / base() in the nearer layer, '
+             '1-2 base overloads from 4 lists x 3 kinds in one or two farther layers, function and method syntax, both paths; '
              '@no_kwargs: 9 lists, flags (T), (T,T), (T,F), (F,T) x 3 layerings; triples: 7 lists cubed x 5 layerings',
     'thorough': 'singles: 10 shapes x 17 extensions (also typed/lazy *r, typed **kw, lazy kW) x 3 kinds x 349 calls '
                 '(constants 1, \'k\', kw); pairs: 157 lists squared x 4 layerings x 173 calls; kind mixing and @no_kwargs on 16 lists; '
@@ -258,6 +260,8 @@ def classify(layers, call, path, obs, exp):
             if any(p[1] == 'varkw' for p in o[1]) and any(k in declared for k, v in call[2]):
                 return ('python-spelling-captured-through-varkw (a keyword that is the python name of a declared parameter is '
                         'passed on inside **kwargs and python binds it to that parameter, unchecked)')
+    if any(p[2].startswith('Super/') for _, overloads in layers for o in overloads for p in o[1]):
+        return 'base call through a Super parameter resolved differently (receiver / call kind / starting layer)'
     part = 'outcome' if obs[0] != exp[0] else 'evaluated-arguments' if obs[1] != exp[1] else 'payload-arguments'
     return 'model-mismatch %s: expected=%s observed=%s path=%s' % (part, outcome_class(exp[0]), outcome_class(obs[0]), path)
 
@@ -284,7 +288,7 @@ def paths_for(layers, call, text=True):
     out = []
     if not (call[2] and any(o[3] for _, ovs in layers for o in ovs)):
         out.append('direct')
-    if text and wants_text(call) and R.spellable(call):
+    if (text == 'always' or (text and wants_text(call))) and R.spellable(call):
         out.append('text')
     return out
 
@@ -395,6 +399,47 @@ def job_types(tier):
     return res
 
 
+def super_overrides():
+    """foo(x, base: Super(method=None|True|False)) of every kind, calling base(x) or base()."""
+    out = []
+    for t in ('Any', 'A'):
+        for kind in ('function', 'method', 'ext'):
+            for variant, mode in (('None', 'arg'), ('None', 'noarg'), ('True', 'arg'), ('False', 'arg'), ('False', 'noarg')):
+                out.append(('t1', (P('x', 'pos', t), P('base', 'hidden', 'Super/%s/%s' % (variant, mode))), kind, False))
+    return out
+
+
+def super_bases():
+    x, y = P('x', 'pos', 'Any'), P('y', 'pos', 'Any')
+    return [(pl, kind) for pl in ((), (x,), (P('x', 'pos', 'A'),), (x, y)) for kind in ('function', 'method', 'ext')
+            if kind == 'function' or M.valid_method(pl)]
+
+
+SUPER_CALLS = [(None, (V('a'),), ()), (None, (V('b'),), ()), (None, (V('c'),), ()),
+               (('val', 'a'), (), ()), (('val', 'b'), (), ()), (('val', 'c'), (), ())]
+
+
+def job_super(tier, part, of):
+    """An override in the nearer layer reaches its base through a Super parameter;
+    the farther layer(s) hold function / method / extension overloads of the name."""
+    res = Result()
+    calls = list(enumerate(SUPER_CALLS))
+    bases_ = super_bases()
+    n = 0
+    for oi, over in enumerate(super_overrides()):
+        fams = [('one', (b,)) for b in range(len(bases_))]
+        fams += [('same', (b, c)) for b in range(len(bases_)) for c in range(b, len(bases_))]
+        fams += [('chain', (b, c)) for b in range(len(bases_)) for c in range(len(bases_))]
+        for name, idx in fams:
+            n += 1
+            if n % of != part:
+                continue
+            far = tuple(('t%d' % (k + 2), bases_[b][0], bases_[b][1], False) for k, b in enumerate(idx))
+            layers = ((False, (over,)),) + (tuple((False, (o,)) for o in far) if name == 'chain' else ((False, far),))
+            run_family(res, ('super', oi, name, idx), layers, calls, text='always')
+    return res
+
+
 def job_kinds(tier, firsts):
     """All kind combinations x layerings on the small parameter lists."""
     res = Result()
@@ -466,6 +511,7 @@ def strides(n, k):
 def jobs(tier, seed):
     quick = tier == 'quick'
     out = [('grammar', 'job_grammar', (tier,)), ('types', 'job_types', (tier,))]
+    out += [('super-%d' % k, 'job_super', (tier, k, 4)) for k in range(4)]
     pls = all_plists(tier)
     for n, idx in enumerate(strides(len(pls), 8 if quick else 32)):
         out.append(('single-%02d' % n, 'job_single', (tier, [pls[i] for i in idx])))
